@@ -268,7 +268,12 @@ def check_cli_fasta(case, ctx, scratch):
         for which in ("cold-cache", "warm-cache"):
             ctx.case()
             cli_runs.clear_outputs(cr)
-            res = cli_runs.run_pretext_to_asm(cr, out_name="out.fa")
+            from vf.props.c17 import patched_buffer
+
+            # (a small indexer buffer in two cases out of three: records longer than the buffer, N runs that end on
+            #  a buffer boundary - what chromosome-sized records meet at the default 250 000)
+            with patched_buffer([7, 64, 250000][case["id"][2] % 3]):
+                res = cli_runs.run_pretext_to_asm(cr, out_name="out.fa")
             rc = {**cli_runs.case_of(cr), "painted": case["painted"], "hapnames": case["hapnames"], "fasta_leg": which}
             if res["exit_code"] != 0:
                 ctx.violation("cli-null-map-failed:fasta-input", f"{which}: exit {res['exit_code']}: {res['exception']!r} {res['stderr'][-300:]}", rc)
@@ -281,6 +286,24 @@ def check_cli_fasta(case, ctx, scratch):
             if got != want:
                 k = next((j for j in range(min(len(got), len(want))) if got[j] != want[j]), min(len(got), len(want)))
                 ctx.violation(f"cli-sequence-differs-from-input-fasta:{which}", f"{len(got)} records vs {len(want)}; first difference: got {got[k][:80] if k < len(got) else None!r} want {want[k][:80] if k < len(want) else None!r}", rc)
+                return
+            # the AGP written beside it holds the input's rows (contigs and gaps as the FASTA has them)
+            from vf.ref import agp_ref
+
+            def sig(rows):
+                rows = list(rows)
+                while rows and rows[0][0] == "G":
+                    rows.pop(0)
+                while rows and rows[-1][0] == "G":
+                    rows.pop()
+                return [[*r[:5]] if r[0] == "F" else [r[0], r[1]] for r in rows]
+
+            beside = d / (outs[0][:-3] + ".agp")
+            rows_out = sorted(sig(s_[1]) for s_ in agp_ref.parse(beside.read_text())[0]["scaffolds"]) if beside.exists() else None
+            # (the input as the FASTA holds it: maximal ACGT runs and the runs between them)
+            rows_in = sorted(sig([list(x) for x in fasta_ref.tiling(r_)]) for r_ in fasta_ref.parse(fa))
+            if rows_out != rows_in:
+                ctx.violation(f"cli-rows-differ-from-input-fasta:{which}", f"AGP beside {outs[0]}: {str(rows_out)[:300]}\ninput: {str(rows_in)[:300]}", rc)
                 return
             ctx.count(f"cli-null-fasta-ok:{which}" + (":crlf" if crlf else ""))
     finally:
